@@ -30,7 +30,7 @@ def run(ctx):
     res = vlib.tlc("C10-gen-train", "Gen_Train", cfg, timeout=3400)
     if res["violated"]:
         raise vlib.ToolError("Gen_Train: design-level fact violated: " + res["violated"])
-    cases = vlib.cases_from(res["out"])
+    cases = vlib.nonempty(vlib.cases_from(res["out"]), "Gen_Train")
     ctx.add_tlc(res, f"Gen_Train: {len(cases)} configurations x {len(cases[0]['sents'])} sentences; expected examples by VpTrainer!Examples")
     send = []
     for i, c in enumerate(cases):
